@@ -645,13 +645,13 @@ func check(prop, tier string) {
 
 	fmt.Printf("check %s %s: runs=%d nontrivial=%d distinct_schedules=%d steps=%d sim_time=%.0fs faults=%v probes=%v wall=%.1fs seed=%d tree=%s\n",
 		prop, tier, merged.Runs, merged.NonTrivial, len(sigs), merged.Steps, float64(merged.FakeNs)/1e9, merged.Faults, merged.Probes, wall, seed, key)
+	for _, i := range infra {
+		fmt.Fprintln(os.Stderr, "INFRA:", i) // also next to violations: an unmet probe must not hide behind them
+	}
 	if len(newViol) > 0 {
 		os.Exit(1)
 	}
 	if len(infra) > 0 {
-		for _, i := range infra {
-			fmt.Fprintln(os.Stderr, "INFRA:", i)
-		}
 		fmt.Fprintln(os.Stderr, "runner: infrastructure trouble — exit 2 (no property verdict)")
 		os.Exit(2)
 	}
